@@ -25,7 +25,7 @@ RULE = ('cases = generated programs over one live Data.fs: commits, packs, a tra
         'date before the last backup; distinct by program hash')
 ASSUMPTIONS = ['repozo is driven through do_backup/do_recover/do_verify with an options object and options.test_now (its own test hook)',
                'a flipped byte in a gzip file that leaves the decompressed stream identical is not a content change']
-BUDGET = {'quick': {'examples': 400, 'workers': 8},
+BUDGET = {'quick': {'examples': 1500, 'workers': 8},
           'thorough': {'examples': 6000, 'workers': 16}}
 
 
